@@ -468,6 +468,7 @@ def w4_w5(ctx, F):
         if n.get("k") == "Match" and n.get("src") == "Normal":
             pks = [hir.pat_key(a["pat"]) for a in n["arms"]]
             vals = [sym(a["body"]) for a in n["arms"]]
+            vals = [v[2][0] if v[0] == "ctor" and str(v[1]).endswith(("::Some", "::Ok")) and len(v[2]) == 1 else v for v in vals]
             if any(v == ("variant", "chess::Player::White") for v in vals):
                 side = (n, pks, sym(n["e"]))
     ok = side is not None and ("lit", "w") in side[1] and ("lit", "b") in side[1] and side[2][0] == "var" and \
